@@ -172,6 +172,9 @@ def cases_melody(r):
            "Raw Pitch Accuracy": 1.0, "Raw Chroma Accuracy": 1.0,
            "Overall Accuracy": 1.0}
     out = [("melody.evaluate", (t, f, t.copy(), f.copy()), kw, exp)]
+    # the same copy with its (binary) voicing passed explicitly
+    out.append(("melody.evaluate", (t, f, t.copy(), f.copy(), (f > 0).astype(float)), kw,
+                exp))
     rv, rc, _, _ = tasks.gen_melody_frames(r)
     if len(rv) and rv.sum() > 0 and set(rv.tolist()) <= {0.0, 1.0}:
         rc = np.where(rc == 0, 4800.0, rc)
